@@ -149,6 +149,17 @@ Definition run_op (sy : system) (o : json) (now : Z) : system * json :=
     let '(sy', w) := process_event sy (jfS "loc" o) (dec_ctx o) (dec_env o now)
                                    (sem_of_table (jget_d "sem" o)) (jnorm (jget_d "event" o)) in
     (sy', json_of_walk w)
+  else if String.eqb (jfS "op" o) "event" &&
+          (match jget "trigger!" (jget_d "event" o), jget "evaluate!" (jget_d "event" o) with
+           | None, None => false | _, _ => true end) then
+    (* FindRules.Do on an event that names or embeds a rule *)
+    match sys_get sy (jfS "loc" o) with
+    | None => (sy, res_of (@Err unit E_noloc) (fun _ => []))
+    | Some _ =>
+        let '(sy', r) := find_rules_full sy (jfS "loc" o) (dec_ctx o) (dec_env o now)
+                                         (sem_of_table (jget_d "sem" o)) (jnorm (jget_d "event" o)) in
+        (sy', render sy' (LEvent JNull) (RChildren (omap (map (fun t => (fst (fst t), snd t))) r)))
+    end
   else if String.eqb (jfS "op" o) "addrule" && (match jget "sem" o with Some _ => true | None => false end) then
     let '(sy', r) := with_loc sy (jfS "loc" o)
                               (fun l => loc_add_rule_c (sem_of_table (jget_d "sem" o)) l (dec_ctx o) (dec_env o now)
@@ -199,6 +210,16 @@ Fixpoint has_propvar (p : json) : bool :=
   match p with
   | JObj kvs => existsb (fun kv => is_var (fst kv) || has_propvar (snd kv)) kvs
   | JArr l => existsb has_propvar l
+  | _ => false
+  end.
+
+(** D43: a pattern with an optional variable ("??x") as a value: the matcher
+    lets the key be absent, the term index requires it. *)
+Fixpoint has_optvar (p : json) : bool :=
+  match p with
+  | JStr s => is_optvar s
+  | JObj kvs => existsb (fun kv => has_optvar (snd kv)) kvs
+  | JArr l => existsb has_optvar l
   | _ => false
   end.
 
@@ -341,11 +362,13 @@ Definition kf_of (sy : system) (o : json) : list string :=
   if String.eqb op "query" then
     let ps := query_patterns (jsize (jget_d "query" o)) (jnorm (jget_d "query" o)) in
     ((if existsb (fun p => match extract_terms p with [] => true | _ => false end) ps then ["D8"] else []) ++
+     (if existsb has_optvar ps then ["D43"] else []) ++
      (if existsb has_propvar ps then ["D9"] else []))%list
   else
   if String.eqb op "search" then
     let p := jnorm (jget_d "pattern" o) in
     ((match extract_terms p with [] => ["D8"] | _ => [] end) ++
+     (if has_optvar p then ["D43"] else []) ++
      (if has_propvar p then ["D9"] else []))%list
   else if String.eqb op "event" || String.eqb op "process" then
     (* patterns inside the conditions of the stored rules (D8/D9 apply to them too) *)
